@@ -67,6 +67,10 @@ theorem tail_tables_match :
     assignDescends = modelDescends ∧ retDescends = modelDescends ∧
       assignSkips = modelAssignSkips ∧ retSkips = modelRetSkips := by decide
 
+/-- … and applies the transformation to exactly the children the Rust arms apply it to (regenerated:
+    the fields of each rebuilt variant whose initialiser calls the function) -/
+theorem tail_children_match : assignChildren = modelChildren ∧ retChildren = modelChildren := by decide
+
 /-- **definition_binds_on_every_path**: after `append_assign`, no path through the statement tree —
     whatever the nesting of blocks, conditionals, match arms, try/except handlers — ends in a bare
     expression: every path ends in an assignment (to `x` where an expression stood), a `return`, a
